@@ -1,4 +1,5 @@
 pub mod dispatch;
+pub mod fixture;
 pub mod network;
 pub mod powertrain;
 pub mod train;
